@@ -93,6 +93,7 @@ class Client:
         self.local_port = None
         self.auth_ok = False
         self.server_params = {}
+        self.dead = False
         if connect:
             self.connect()
 
